@@ -253,6 +253,44 @@ func checkC15(p *Prog, c *Check) {
 			break
 		}
 	}
+	// every decoding method of a variable-byte-integer wire type must be among them: one that is not of the
+	// recognised shape (accumulator starting at zero inside the function, stored on the successful exit) is named
+	for _, name := range p.Pkg.Scope().Names() {
+		tnm, ok := p.Pkg.Scope().Lookup(name).(*types.TypeName)
+		if !ok || tnm.IsAlias() || p.wireKindOf(tnm.Type()) != "vbi" {
+			continue
+		}
+		for _, mn := range []string{"UnmarshalBinary", "ReadFrom"} {
+			fn := p.Method(name, mn)
+			if fn == nil || fn.Blocks == nil || !scope[fn] {
+				continue
+			}
+			found := false
+			for _, d := range decs {
+				if d.fn == fn {
+					found = true
+				}
+			}
+			if found {
+				continue
+			}
+			why := "no accumulator that starts at zero inside the function, grows by (byte & mask) × multiplier per byte and is stored into the receiver on the successful exit"
+			for _, b := range fn.Blocks {
+				for _, ins := range b.Instrs {
+					if s, ok := ins.(*ssa.Store); ok && s.Addr == ssa.Value(fn.Params[0]) {
+						if bo, ok := p.stripNonNarrowing(s.Val).(*ssa.BinOp); ok && (bo.Op == token.ADD || bo.Op == token.OR) {
+							for _, op := range []ssa.Value{bo.X, bo.Y} {
+								if ld, ok := p.stripNonNarrowing(op).(*ssa.UnOp); ok && ld.Op == token.MUL && ld.X == ssa.Value(fn.Params[0]) {
+									why = "the receiver cell itself is the accumulator (" + posOf(p, s) + "): the decoded value is added to whatever the receiver held before the call, so decoding into a variable that is not zero gives another value than the bytes encode"
+								}
+							}
+						}
+					}
+				}
+			}
+			c.Bad("R15.1", qname(fn), p.Pos(fn.Pos()), "decoder of the variable byte integer type "+name+": "+why)
+		}
+	}
 	c.Measured["vbi_decoders"] = len(decs)
 	c.Floor("variable-byte-integer decoders", len(decs), 2, "streaming and in-memory")
 	const R, M, CONT = 128, 127, 128
